@@ -10,7 +10,7 @@ Lemma Qzero_true v : Qzero v = true -> v == 0.
 Proof. unfold Qzero. intros H. apply Qeq_bool_eq in H; auto. Qed.
 
 (* em on any length property: against the element's own font size *)
-Theorem em_against_own_font_size e v : px_is (length e None (LDim v Em)) (v * own_fs e).
+Theorem em_against_own_font_size e v : px_is (length e false None (LDim v Em)) (v * own_fs e).
 Proof.
   unfold length. destruct (Qzero v) eqn:Z; simpl.
   - apply Qzero_true in Z. rewrite Z. lra.
@@ -19,34 +19,36 @@ Qed.
 
 (* ex / ch likewise, times the font's ratio *)
 Theorem ex_ch_against_own_font_size e v :
-  px_is (length e None (LDim v Ex)) (v * own_fs e * ex_ratio e) /\
-  px_is (length e None (LDim v Ch)) (v * own_fs e * ch_ratio e).
+  px_is (length e false None (LDim v Ex)) (v * own_fs e * ex_ratio e) /\
+  px_is (length e false None (LDim v Ch)) (v * own_fs e * ch_ratio e).
 Proof.
   unfold length. destruct (Qzero v) eqn:Z; simpl.
   - apply Qzero_true in Z. rewrite Z. split; lra.
   - split; reflexivity.
 Qed.
 
-Theorem rem_against_root e fs v : px_is (length e fs (LDim v Rem)) (v * root_fs e).
+Theorem rem_against_root e b fs v :
+  is_root e && negb b = false -> px_is (length e b fs (LDim v Rem)) (v * root_fs e).
 Proof.
-  unfold length. destruct (Qzero v) eqn:Z; simpl.
+  intros H. unfold length. rewrite H. destruct (Qzero v) eqn:Z; simpl.
   - apply Qzero_true in Z. rewrite Z. lra.
   - reflexivity.
 Qed.
 
-(* FINDING: on the root element itself the model (as the code: root_style = {'font_size': 16}) resolves rem in
-   EVERY property against the initial 16px, although CSS Values 3 5.1.1 makes that exception for the font-size
-   property only: with font-size: 10px on the root, margin-left: 2rem is 32px instead of 20px *)
-Theorem rem_on_root_element_refuted :
-  exists own v, ~ px_is (length (element_env true own own (1 # 2) (1 # 2)) None (LDim v Rem)) (v * own).
-Proof. exists 10, 2. intro H. vm_compute in H. discriminate H. Qed.
-(* ... on every other element rem is the root's computed font size *)
-Theorem rem_on_other_elements own doc_root exr chr v :
-  px_is (length (element_env false own doc_root exr chr) None (LDim v Rem)) (v * doc_root).
-Proof. apply (rem_against_root (element_env false own doc_root exr chr) None v). Qed.
+(* rem in a length property: the computed font size of the root element - also on the root element itself
+   (CSS Values 3 5.1.1; only the root's own font-size property refers to the initial value) *)
+Theorem rem_in_length_properties (root : bool) own doc_root exr chr v :
+  (root = true -> doc_root == own) ->
+  px_is (length (element_env root own doc_root exr chr) false None (LDim v Rem)) (v * doc_root).
+Proof.
+  intros H. unfold length, element_env, root_font_size_for. simpl.
+  destruct (Qzero v) eqn:Z; simpl.
+  - apply Qzero_true in Z. rewrite Z. lra.
+  - destruct root; simpl; [rewrite (H eq_refl)|]; reflexivity.
+Qed.
 
 (* absolute units are fixed multiples of the pixel: 1in = 96px = 72pt = 6pc = 2.54cm = 25.4mm = 101.6q *)
-Theorem absolute_units e fs v u f : to_pixels u = Some f -> px_is (length e fs (LDim v u)) (v * f).
+Theorem absolute_units e b fs v u f : to_pixels u = Some f -> px_is (length e b fs (LDim v u)) (v * f).
 Proof.
   intros H. unfold length. destruct (Qzero v) eqn:Z.
   - apply Qzero_true in Z. simpl. rewrite Z. lra.
@@ -60,7 +62,7 @@ Theorem unit_table_exact :
   (exists f, to_pixels Qu = Some f /\ f * (1016 # 10) == 96).
 Proof. repeat split; eexists; split; try reflexivity; reflexivity. Qed.
 
-Theorem percent_and_keywords_unchanged e fs v : length e fs LKeyword = LSame /\ (~ v == 0 -> length e fs (LDim v Pct) = LSame).
+Theorem percent_and_keywords_unchanged e b fs v : length e b fs LKeyword = LSame /\ (~ v == 0 -> length e b fs (LDim v Pct) = LSame).
 Proof.
   split; auto. intros H. unfold length. destruct (Qzero v) eqn:Z; auto.
   apply Qzero_true in Z. contradiction.
@@ -89,22 +91,23 @@ Proof.
 Qed.
 
 (* rem: against the root element's font size; on the root element itself against the initial value *)
-Theorem font_size_rem_against_root own exr chr parent (is_root : bool) doc_root v :
-  let e := {| own_fs := own; root_fs := root_font_size_for is_root doc_root; ex_ratio := exr; ch_ratio := chr |} in
-  some_is (font_size e parent (FDim v Rem)) (v * (if is_root then 16 else doc_root)).
+Theorem font_size_rem_against_root own exr chr parent (root : bool) doc_root v :
+  some_is (font_size (element_env root own doc_root exr chr) parent (FDim v Rem))
+          (v * (if root then 16 else doc_root)).
 Proof.
-  unfold font_size, length, root_font_size_for, initial_font_size. destruct (Qzero v) eqn:Z; simpl.
-  - apply Qzero_true in Z. rewrite Z. destruct is_root; lra.
-  - destruct is_root; reflexivity.
+  unfold font_size, length, element_env, root_font_size_for, initial_font_size. simpl.
+  rewrite andb_false_r. destruct (Qzero v) eqn:Z; simpl.
+  - apply Qzero_true in Z. rewrite Z. destruct root; lra.
+  - destruct root; reflexivity.
 Qed.
 
 Theorem font_size_absolute e parent v u f :
   to_pixels u = Some f -> some_is (font_size e parent (FDim v u)) (v * f).
 Proof.
-  intros H. pose proof (absolute_units e (Some (parent_or_initial parent)) v u f H) as P.
+  intros H. pose proof (absolute_units e true (Some (parent_or_initial parent)) v u f H) as P.
   unfold font_size. fold (parent_or_initial parent).
   destruct u; simpl in H; try discriminate;
-    destruct (length e (Some (parent_or_initial parent)) _); simpl in *; auto.
+    destruct (length e true (Some (parent_or_initial parent)) _); simpl in *; auto.
 Qed.
 
 (* ---- larger / smaller *)
@@ -207,7 +210,7 @@ Theorem line_height_em_against_own_font_size e v :
   match line_height e (HLen v Em) with RPixels q => q == v * own_fs e | _ => False end.
 Proof.
   unfold line_height. pose proof (em_against_own_font_size e v) as H.
-  destruct (length e None (LDim v Em)); simpl in *; auto.
+  destruct (length e false None (LDim v Em)); simpl in *; auto.
 Qed.
 
 (* ---- media *)
